@@ -371,6 +371,132 @@ def part_orientation_sweep(rng):
     return cases
 
 
+def small_scope_meshes(kind):
+    """ALL facet-connected conforming 2-D meshes with <= 3 cells in which two cells share at most one edge, up to
+    renaming of the vertices and reordering of the cells (the vertex ORDER inside every cell is significant): cell 0 is the
+    reference cell; every further cell is glued to a free edge of an earlier cell with any of its local edges in
+    either direction (= all 8 / 6 vertex orders of the new cell), optionally closing a second shared edge by
+    identifying one more vertex (three cells around a vertex, two cells sharing two edges are rejected by
+    `check_mesh`).  Yields lists of vertex tuples."""
+    n = nverts(kind, 2)
+    loc = FIM[kind][2][1]
+
+    def free_edges(cells):
+        cnt = {}
+        for c in cells:
+            for lf in loc:
+                cnt.setdefault(frozenset(c[j] for j in lf), []).append(tuple(c[j] for j in lf))
+        return [v[0] for v in cnt.values() if len(v) == 1]
+
+    def valid(cells):
+        nv = 1 + max(v for c in cells for v in c)
+        if len({v for c in cells for v in c}) != nv:
+            return False
+        try:
+            m = build_topology(kind, 2, [(Fraction(i), Fraction(0)) for i in range(nv)], cells, None, scramble=False)
+        except KeyError:
+            return False
+        if check_mesh(m) is not None:
+            return False
+        # two cells share at most one edge (no 'pillow' configurations)
+        for x in range(len(cells)):
+            for y in range(x + 1, len(cells)):
+                ex = {frozenset(cells[x][j] for j in lf) for lf in loc}
+                ey = {frozenset(cells[y][j] for j in lf) for lf in loc}
+                if len(ex & ey) > 1:
+                    return False
+        return True
+
+    def canon_mesh(cells):
+        best = None
+        for order in itertools.permutations(range(len(cells))):
+            ren, out = {}, []
+            for ci in order:
+                t = []
+                for v in cells[ci]:
+                    if v not in ren:
+                        ren[v] = len(ren)
+                    t.append(ren[v])
+                out.append(tuple(t))
+            out = tuple(out)
+            if best is None or out < best:
+                best = out
+        return best
+
+    def dedupe(ms):
+        seen, res = set(), []
+        for m in ms:
+            c = canon_mesh(m)
+            if c not in seen:
+                seen.add(c)
+                res.append([tuple(t) for t in c])
+        return res
+
+    def attach(cells):
+        out = []
+        nv = 1 + max(v for c in cells for v in c)
+        for (a, b) in free_edges(cells):
+            for lf in loc:
+                for (p, q) in ((a, b), (b, a)):
+                    new = [None] * n
+                    new[lf[0]], new[lf[1]] = p, q
+                    k = nv
+                    fresh = []
+                    for j in range(n):
+                        if new[j] is None:
+                            new[j] = k
+                            fresh.append(j)
+                            k += 1
+                    out.append(cells + [tuple(new)])
+                    # closing variants: identify one fresh vertex with an existing vertex
+                    for j in fresh:
+                        for v in range(nv):
+                            if v in (p, q):
+                                continue
+                            cl = list(new)
+                            cl[j] = v
+                            ren = {}
+                            for x in cl:           # keep vertex numbers contiguous
+                                if x >= nv and x not in ren:
+                                    ren[x] = nv + len(ren)
+                            cl = tuple(ren.get(x, x) for x in cl)
+                            cand = cells + [cl]
+                            if valid(cand):
+                                out.append(cand)
+        return out
+
+    one = [[tuple(range(n))]]
+    two = dedupe([m for m in attach(one[0]) if valid(m)])
+    three = dedupe([m for c in two for m in attach(c) if valid(m)])
+    return one + two + three
+
+
+def small_scope_cases(seed, tier="thorough"):
+    """the exhaustive small-scope stream: every mesh of `small_scope_meshes`, refined twice; edges with a seeded
+    random numbering/orientation, generic rational coordinates, the computed boundary as a mesh part"""
+    cases = []
+    for kind in (S, H):
+        for k, cells in enumerate(small_scope_meshes(kind)):
+            # quick tier: all triangle meshes, all quadrilateral meshes of <= 2 cells, every 8th 3-cell quadrilateral
+            # mesh (the residue class rotates with the seed); thorough tier: everything
+            if tier == "quick" and kind == H and len(cells) == 3 and (k + seed) % 8 != 0:
+                continue
+            rng = random.Random(seed * 1000003 + k * 7 + (1 if kind == H else 0))
+            nv = 1 + max(v for c in cells for v in c)
+            pts = set()
+            while len(pts) < nv:
+                pts.add((Fraction(rng.randint(-40, 40), rng.choice((1, 2, 4))), Fraction(rng.randint(-40, 40), rng.choice((1, 2, 4)))))
+            verts = sorted(pts)
+            rng.shuffle(verts)
+            m = build_topology(kind, 2, verts, cells, rng, scramble=True)
+            sets = [set() for _ in range(3)]
+            sets[1] = set(boundary_facets(m))
+            targets = [sorted(x) for x in closure(m, sets)]
+            part = {"halo": False, "targets": targets, "topo": None}
+            cases.append(fmt_case(m, 2, [part]) + " @small-scope:%s%d" % (kind, len(cells)))
+    return cases
+
+
 def gen_part(m, rng, allow_abort=False):
     D = m.dim
     style = rng.choice(["bnd", "bnd", "bndsub", "cells", "cells", "loose", "edges", "verts"])
@@ -1159,13 +1285,15 @@ def main(argv):
         short = {pre: sorted(seen.get(pre, ())) for pre, n in need.items() if len(seen.get(pre, ())) < n}
         if short:
             raise RuntimeError("deterministic sweeps no longer cover every relative orientation: %s" % short)
-        cases = corpus + sweep + psweep + gen_cases(rng, 800 if args.tier == "quick" else 6000, args.tier)
+        small = small_scope_cases(args.seed, args.tier)
+        cases = corpus + sweep + psweep + small + gen_cases(rng, 800 if args.tier == "quick" else 6000, args.tier)
     st = vlib.Stream("refine", cases, [binary], (None if t1_error else vlib.driver_cmd(PROP)), oracle=oracle, nontrivial=nontrivial,
                      describe=describe, signature=signature, canon=canon, env={"VERIF_CASE_TIMEOUT": "120"})
     rule = ("meshes: segment/triangle/quadrilateral/tetrahedron/hexahedron; structured grids (with holes), Kuhn/diagonal "
             "simplicial splits, fans around irregular vertices, shipped data/meshes/*.xml with their mesh parts; cells "
             "re-oriented by random elements of the full symmetry group, edges/faces randomly numbered and oriented; "
-            "deterministic sweep over all symmetries of one cell next to a neighbour; depth 1-3; mesh parts and halos "
+            "deterministic sweep over all symmetries of one cell next to a neighbour; EXHAUSTIVE small scope: all "
+            "facet-connected 2-D meshes of <= 3 cells with all vertex orders of the cells, refined twice; depth 1-3; mesh parts and halos "
             "(boundary, cell patches, loose entity sets, with and without own topology, re-oriented part cells); "
             "non-trivial = valid input with >= 2 cells sharing a facet and a non-identity orientation code")
     rc = vlib.run_pipeline(PROP, args.tier, args.seed, lean, [st], t0, assumptions=[
